@@ -24,6 +24,8 @@ EXPLANATION = (
     "Declined: orthonormality, reconstruction of the density matrix, eigenvalue accuracy and volume values "
     "(numerical results)."
 )
+TECHNIQUE += '; component-selection scan in volume()'
+EXPLANATION += ' R3 also requires volume() to use whole cell vectors only (no Cartesian component singled out: rotation invariance).'
 TRUSTED = ["CPython ast parser", "scipy.linalg.eigh(a, b) solves a v = w b v and returns (w, v)", "np.linalg.norm and abs are non-negative"]
 
 DOC_TRUE = {"y", "yes", "t", "true", "on", "1"}
